@@ -2,6 +2,7 @@ import vlib
 
 class P(vlib.Prop):
     id = "C03"
+    watch = ("pkg/apk/apk/version.go",)
     rule = ("parse: corpus of corners, strings derived from the grammar with every optional part toggled and numbers from {0,1,9,10,007,2^31,2^63-1,2^63,10^20-1}, "
             "and a malformed stream (1-2 byte-level edits of valid strings incl. upper case, doubled dots, NUL, non-ASCII, newline); "
             "compare: corner pairs, the full pre x pre and post x post suffix grids, and pairs that differ in exactly one or two fields, each compared in both directions; "
